@@ -1,21 +1,37 @@
 (** C17 — the Ctrl+I payload.  The model (Model/Conv.v) takes the verdicts of
     path.Match as a parameter [matches]/[bad] (environment), so every theorem
-    here holds for whatever those functions are.
-    PARTIAL: the full statement [c17_dir_is_spec_statement] (from_dir equals the
-    statement's own description [spec_dir] — exactly the eligible files, sorted)
-    is stated below and checked on every harness case by the judge; its Coq
-    proof (sortedness/uniqueness of the compacted name list) is not finished. *)
-From CRS Require Import Lib.Bytes Lib.Sort Model.Perl Model.Conv Proofs.ConvProofs.
+    here holds for whatever those functions are (the only fact used about them:
+    a pattern without meta characters matches exactly itself). *)
+From CRS Require Import Lib.Bytes Lib.Sort Model.Perl Model.Conv Proofs.ConvProofs Proofs.ConvFull.
 Open Scope N_scope.
 
-Definition c17_dir_is_spec_statement : Prop :=
-  forall matches bad tab d,
-    NoDup (map fst d) ->
-    Forall (fun e => path_base (fst e) = fst e) d ->
-    (forall p n, has_meta p = false -> matches p n = beq p n) ->
-    dir_in_scope matches bad tab d = true ->
-    from_dir matches bad tab d =
-    match spec_dir matches tab d with Some b => ROk b | None => RErr 2 end.
+(** Built from a directory: the payload is the concatenation, in lexicographic
+    name order, of exactly the eligible entries (regular after following links,
+    name matched by some pattern, not a dot-file), each converted by the first
+    matching filter and newline-terminated — [spec_dir], the statement's own
+    description — for every listing with distinct names, every filter table
+    with well-formed patterns, provided no non-dot matching name is a dangling
+    link (a filter that fails makes the whole conversion fail). *)
+Theorem c17_dir_is_spec : forall matches bad tab d,
+  (forall p n, has_meta p = false -> matches p n = beq p n) ->
+  NoDup (map fst d) ->
+  Forall (fun e => path_base (fst e) = fst e) d ->
+  dir_in_scope matches bad tab d = true ->
+  from_dir matches bad tab d =
+  match spec_dir matches tab d with Some b => ROk b | None => RErr 2 end.
+Proof. exact from_dir_is_spec. Qed.
+
+(** Sub-directories, non-matching files, dot-files (dangling links included)
+    and special files contribute nothing and cannot make the conversion fail:
+    two directories with the same eligible entries give the same result. *)
+Theorem c17_ineligible_inert : forall matches bad tab d1 d2,
+  (forall p n, has_meta p = false -> matches p n = beq p n) ->
+  NoDup (map fst d1) -> NoDup (map fst d2) ->
+  Forall (fun e => path_base (fst e) = fst e) d1 -> Forall (fun e => path_base (fst e) = fst e) d2 ->
+  dir_in_scope matches bad tab d1 = true -> dir_in_scope matches bad tab d2 = true ->
+  (forall e, eligible matches (sort_table tab) e = true -> (In e d1 <-> In e d2)) ->
+  from_dir matches bad tab d1 = from_dir matches bad tab d2.
+Proof. exact ineligible_inert. Qed.
 
 (** Conversion uses the first matching filter in pattern order. *)
 Theorem c17_first_matching_filter : forall matches bad t name content,
